@@ -161,6 +161,10 @@ func runExifProps(c *Ctx, which string) error {
 				addEx("parse", b, expParse, "wellformed")
 				addEx(fmt.Sprintf("tiffbuf:%d:%d:8", order, fi), b, expTiff, "wellformed")
 				addEp("Decode", b, expTiff, "wellformed", -1)
+				// the reader as the JPEG / HEIF paths drive it: the Exif length is exactly the length of the block, so the last
+				// value of the layout ends on its last byte
+				expJ, _ := finishModel(expectedRaw(g.r, 1))
+				addEx(fmt.Sprintf("jpegifd:%d:%d:%d", order, fi, len(b)), b, expJ, "wellformed")
 				// malformed stream against the model only
 				if c.Rng.Intn(2) == 0 {
 					for _, m := range mutate(c, epInput{Data: b}, 3) {
